@@ -37,4 +37,4 @@ macro_rules! debug_assert_ne { ($a:expr, $b:expr $(, $($t:tt)*)?) => { crate::vx
 // `vec![x; n]` resolves to an allocator stand-in whose precondition carries the allocation budget (C14):
 // an allocation whose size is taken from untrusted input must be bounded by the bytes actually received.
 #[allow(unused_macros)]
-macro_rules! vec { ($e:expr; $n:expr) => { crate::vx_alloc_vec($e, $n) }; }
+macro_rules! vec { () => { ::std::vec::Vec::new() }; ($e:expr; $n:expr) => { crate::vx_alloc_vec($e, $n) }; ($($x:expr),+ $(,)?) => { { let mut __vx_v = ::std::vec::Vec::new(); $( __vx_v.push($x); )+ __vx_v } }; }
